@@ -265,14 +265,90 @@ def inverse_check(res, tier):
     res.add_sample({"inverse": {"nest": ["0", "1"], "route_code": "a/b"}})
 
 
+class AddingSink(rec.Stream):
+    """A sink that registers a further rule from inside its own startTestRun/stopTestRun callback
+    (the class docstring suggests creating rules as needed from a handler)."""
+
+    def __init__(self, router_ref, when, new_sink, nth=1):
+        rec.Stream.__init__(self)
+        self.router_ref = router_ref
+        self.when = when
+        self.new_sink = new_sink
+        self.nth = nth
+        self.count = {"startTestRun": 0, "stopTestRun": 0}
+
+    def _maybe(self, name):
+        self.count[name] += 1
+        if name == self.when and self.count[name] == self.nth:
+            self.router_ref[0].add_rule(self.new_sink, "route_code_prefix", route_prefix="9", consume_route=True, do_start_stop_run=True)
+
+    def startTestRun(self):
+        rec.Stream.startTestRun(self)
+        self._maybe("startTestRun")
+
+    def stopTestRun(self):
+        rec.Stream.stopTestRun(self)
+        self._maybe("stopTestRun")
+
+
+def reentrant_check(res):
+    """Rules registered from inside a start/stop callback while the router is fanning it out."""
+    for host in ("fallback", "rule"):
+        for when in ("startTestRun", "stopTestRun"):
+            for nth in (1, 2):
+                for extra_sinks_after in (0, 1):
+                    ref = [None]
+                    new = rec.Stream()
+                    adding = AddingSink(ref, when, new, nth)
+                    later = rec.Stream()
+                    if host == "fallback":
+                        router = StreamResultRouter(adding)
+                    else:
+                        router = StreamResultRouter()
+                        router.add_rule(adding, "route_code_prefix", route_prefix="0", do_start_stop_run=True)
+                    if extra_sinks_after:
+                        router.add_rule(later, "route_code_prefix", route_prefix="1", do_start_stop_run=True)
+                    ref[0] = router
+                    res.evaluations += 1
+                    res.states += 1
+                    res.transitions += 6
+                    res.traces_validated += 1
+                    try:
+                        for run in (1, 2, 3):
+                            router.startTestRun()
+                            if any(k == "9" for k in getattr(router, "_route_code_prefixes", {"9": 1})):
+                                pass
+                            router.stopTestRun()
+                    except Exception as e:
+                        res.violation("C18/start-stop/rule-added-from-callback", "router raised %s: %s [host=%s when=%s nth=%d]" % (type(e).__name__, e, host, when, nth), {"reentrant": [host, when, nth, extra_sinks_after]})
+                        continue
+                    names = [e[0] for e in new.log]
+                    # registered during run number nth: from then on exactly one start and one stop per run, alternating
+                    runs_seen = 3 - nth + 1
+                    want = ["startTestRun", "stopTestRun"] * runs_seen
+                    res.distinct.add(obs_hash(("reentrant", host, when, nth, extra_sinks_after)))
+                    if names != want:
+                        res.violation(
+                            "C18/start-stop/rule-added-from-callback",
+                            "a sink registered (do_start_stop_run=True) from inside a sink's %s callback of run %d received %r over runs %d..3, expected %r [host=%s, further registered sinks=%d]" % (when, nth, names, nth, want, host, extra_sinks_after),
+                            {"reentrant": [host, when, nth, extra_sinks_after]},
+                        )
+                    if extra_sinks_after and [e[0] for e in later.log] != ["startTestRun", "stopTestRun"] * 3:
+                        res.violation("C18/start-stop/rule-added-from-callback", "a sibling registered sink received %r" % ([e[0] for e in later.log],), {"reentrant": [host, when, nth, extra_sinks_after]})
+    res.add_sample({"reentrant": ["fallback", "startTestRun", 1, 1]})
+
+
 def shards(tier):
-    return [("bfs", f) for f in FALLBACKS] + [("inverse",)]
+    return [("bfs", f) for f in FALLBACKS] + [("inverse",), ("reentrant",)]
 
 
 def run_shard(shard, tier, seed):
     res = ShardResult()
     if shard[0] == "inverse":
         inverse_check(res, tier)
+        return res
+    if shard[0] == "reentrant":
+        reentrant_check(res)
         return res
     depth = 6 if tier == "quick" else 8
     sysm = System(shard[1], 3)
@@ -295,6 +371,10 @@ def meta(tier):
 
 
 def replay(data):
+    if "reentrant" in data:
+        res = ShardResult()
+        reentrant_check(res)
+        return (not res.violations), repr([v["message"] for v in res.violations][:4])
     if "inverse" in data:
         res = ShardResult()
         inverse_check(res, "thorough")
